@@ -40,7 +40,9 @@ def cases(tier, seed):
     dims = [('ninst', [1, 2]), ('nbeads', [1, 0, 2]), ('nsamples', [2, 1, 3]), ('units', ['mixed', 'all-mef', 'channel', 'none', 'all-rfi']),
             ('cont', ['int', 'float']), ('plot', [False, True]), ('hist', [False, True]), ('outpath', ['default', 'explicit', 'relative']),
             ('nfl', [2, 3, 4, 11]), ('cluster', ['all', 'one']), ('wbname', ['experiment', 'cells', 'samples.x', 'xls', 'Tables 2020-01']),
-            ('ids', ['text', 'numbers', 'dotted']), ('hdr', ['plain', 'blanks'])]
+            ('ids', ['text', 'numbers', 'dotted']), ('hdr', ['plain', 'blanks']),
+            ('paths', ['relative', 'absolute', 'plain-relative']),         # File Path cells: ./FCFiles/x.fcs, /abs/.../FCFiles/x.fcs, FCFiles/x.fcs
+            ('mefnone', [False, True])]                                    # a manufacturer value given as None (documented: that population is ignored)
     if tier == 'quick':
         cfgs = [dict(ninst=1, nbeads=1, nsamples=2, units='mixed', cont='int', plot=True, hist=True, outpath='default', nfl=2, cluster='all'),
                 dict(ninst=1, nbeads=1, nsamples=1, units='all-mef', cont='int', plot=True, hist=False, outpath='explicit', nfl=3, cluster='all'),
@@ -56,6 +58,9 @@ def cases(tier, seed):
                 dict(ninst=1, nbeads=1, nsamples=3, units='mixed', cont='int', plot=True, hist=True, outpath='relative', nfl=2, cluster='all'),
                 dict(ninst=1, nbeads=1, nsamples=3, units='mixed', cont='int', plot=True, hist=True, outpath='default', nfl=2, cluster='all', ids='dotted'),
                 dict(ninst=1, nbeads=1, nsamples=2, units='all-rfi', cont='float', plot=False, hist=True, outpath='explicit', nfl=2, cluster='all', ids='dotted'),
+                dict(ninst=1, nbeads=1, nsamples=2, units='mixed', cont='int', plot=True, hist=True, outpath='default', nfl=2, cluster='all', paths='absolute'),
+                dict(ninst=2, nbeads=2, nsamples=2, units='all-mef', cont='int', plot=False, hist=False, outpath='explicit', nfl=2, cluster='all', paths='plain-relative', mefnone=True),
+                dict(ninst=1, nbeads=1, nsamples=1, units='all-mef', cont='int', plot=True, hist=True, outpath='default', nfl=3, cluster='one', mefnone=True),
                 dict(ninst=1, nbeads=1, nsamples=2, units='mixed', cont='int', plot=False, hist=True, outpath='default', nfl=3, cluster='all', hdr='blanks')]
     else:
         cfgs = list(explore.deviations(dims, 1)) + [c for c in explore.deviations(dims, 2) if c['_dev'] == 2 and c['plot'] and (c['nfl'] == 3 or c['hist'])]
@@ -210,8 +215,10 @@ def build(cfg, d):
         lay, truth = wg.bead_layout(inst, stream=60 + k, container=cfg['cont'])
         wg.write_fcs(os.path.join(d, 'FCFiles', 'beads%d.fcs' % k), lay)
         cl = ', '.join(inst['fl']) if cfg['cluster'] == 'all' else inst['fl'][0]
-        beads.append(dict(id=bead_id(k), inst=inst['id'], file='./FCFiles/beads%d.fcs' % k, gate_fraction=0.3, cluster=cl,
-                          mef={ch: wg.mef_string(truth, ci) for ci, ch in enumerate(inst['fl'][:2])}, inst_obj=inst, lot='AJ0%d' % k))
+        fpath = {'relative': './FCFiles/%s', 'absolute': os.path.join(os.path.abspath(d), 'FCFiles', '%s'), 'plain-relative': 'FCFiles/%s'}[cfg.get('paths', 'relative')]
+        beads.append(dict(id=bead_id(k), inst=inst['id'], file=fpath % ('beads%d.fcs' % k), gate_fraction=0.3, cluster=cl,
+                          mef={ch: wg.mef_string(truth, ci, unknown=((0, 4 - ci) if cfg.get('mefnone') else ())) for ci, ch in enumerate(inst['fl'][:2])},
+                          inst_obj=inst, lot='AJ0%d' % k))
     for k in range(cfg['nsamples']):
         inst = insts[k % len(insts)]
         wg.write_fcs(os.path.join(d, 'FCFiles', 'cells%d.fcs' % k), wg.cell_layout(inst, stream=70 + k, container=cfg['cont'], n=820 + 90 * k))
@@ -224,7 +231,8 @@ def build(cfg, d):
         if cfg['units'] == 'all-rfi':
             for ch in inst['fl'][2:]:
                 units[ch] = 'RFI'              # every fluorescence channel of the instrument is reported
-        samples.append(dict(id=sample_id(k), inst=inst['id'], beads=mine[0]['id'] if mine else None, file='./FCFiles/cells%d.fcs' % k,
+        fpath = {'relative': './FCFiles/%s', 'absolute': os.path.join(os.path.abspath(d), 'FCFiles', '%s'), 'plain-relative': 'FCFiles/%s'}[cfg.get('paths', 'relative')]
+        samples.append(dict(id=sample_id(k), inst=inst['id'], beads=mine[0]['id'] if mine else None, file=fpath % ('cells%d.fcs' % k),
                             gate_fraction=0.85, units=units, inst_obj=inst))
     wb = os.path.join(d, cfg.get('wbname', 'experiment') + '.xlsx')
     mcols, ucols = [], []
